@@ -1008,8 +1008,33 @@ class Interp(object):
                 return vs.conj_scalar(to_rat(v), I.real_scalars)
             return Builtin('np.conj', npconj)
         if name == 'isnan':
-            return Builtin('np.isnan', lambda v: isinstance(v, Opaque)
-                           and v.desc == 'np.nan')
+            def isnan(v):
+                one = lambda z: isinstance(z, Opaque) and z.desc == 'np.nan'
+                if isinstance(v, (list, tuple)):
+                    return [one(z) for z in v]
+                if isinstance(v, SArr):
+                    return SArr([one(z) for z in v.items])
+                return one(v)
+            return Builtin('np.isnan', isnan)
+        if name in ('nansum', 'nanmax', 'nanmin'):
+            def nanred(v, **k):
+                vals = v.items if isinstance(v, SArr) else v
+                if not isinstance(vals, (list, tuple)):
+                    vals = [vals]
+                keep = [z for z in vals if not (isinstance(z, Opaque) and
+                                                z.desc == 'np.nan')]
+                if not all(is_scalar(z) and not isinstance(z, Opaque)
+                           for z in keep):
+                    raise Undecided('np.%s of %r' % (name, vals))
+                if name == 'nansum':
+                    tot = Rat.const(0)
+                    for z in keep:
+                        tot = tot + to_rat(z)
+                    return tot
+                if not keep:
+                    return Opaque('np.nan')
+                raise Undecided('np.%s' % name)
+            return Builtin('np.' + name, nanred)
         if name == 'isfinite':
             return Builtin('np.isfinite', lambda v: not isinstance(v, Opaque))
         if name in ('maximum', 'minimum'):
@@ -1071,8 +1096,18 @@ class Interp(object):
                     return max(vals) if name == 'max' else min(vals)
                 raise Undecided('np.%s of symbolic values' % name)
             return Builtin('np.' + name, mx)
-        if name in ('any', 'all', 'less', 'greater', 'less_equal',
-                    'greater_equal'):
+        if name in ('any', 'all'):
+            def anyall(v=None, *a, **k):
+                vals = v.items if isinstance(v, SArr) else v
+                if isinstance(vals, (list, tuple)) and all(
+                        isinstance(z, bool) for z in vals) and not a \
+                        and not k:
+                    return any(vals) if name == 'any' else all(vals)
+                if isinstance(vals, bool):
+                    return vals
+                return Opaque('np.' + name)
+            return Builtin('np.' + name, anyall)
+        if name in ('less', 'greater', 'less_equal', 'greater_equal'):
             return Builtin('np.' + name, lambda *a, **k: Opaque('np.' + name))
         if name == 'logical_not':
             def lnot(v):
